@@ -437,6 +437,21 @@ def prove(chk, units, model_targets, prop, proof_files, allow_axioms=()):
         if not ok_m:
             res['proof_ok'] = False
             res['broken'] = (ff, lemma_at(ff, 10 ** 9) if ff else None, detail)
+            # the model regenerated from the current source does not even build (the translator met a shape it renders wrongly):
+            # the tie is broken; so that the search for a concrete failing input can still run against the specification, fall
+            # back to the committed snapshot of that unit (the broken obligation stays reported)
+            tried = set()
+            while (not ok_m) and ff and ff.startswith('gen/') and ff not in tried:
+                tried.add(ff)
+                sn = os.path.join(COQ, 'gen-snapshot', os.path.basename(ff))
+                if not os.path.exists(sn):
+                    break
+                open(os.path.join(COQ, ff), 'w').write(open(sn).read())
+                log('  regenerated %s does not build: using the committed snapshot for the counterexample search' % ff)
+                ok_m, out_m, ff, detail = coq_make(model_targets)
+            if ok_m:
+                res['model_ok'] = True
+                res['snapshot_fallback'] = sorted(tried)
             return res
         vo = os.path.join(COQ, 'props', prop + '.vo')
         if os.path.exists(vo):
